@@ -220,7 +220,7 @@ def corpus_sweep(part, res, only_bucket=None):
 
 def plan(tier):
     sweep = [{"kind": "corpus", "part": i} for i in range(CORPUS_PARTS)]
-    return sweep + ([{"n": 60, "depth": 3}] * 16 if tier == "quick" else [{"n": 1200, "depth": 3}] * 32 + [{"n": 500, "depth": 5}] * 16)
+    return sweep + ([{"n": 60, "depth": 3}] * 16 if tier == "quick" else [{"n": 600, "depth": 3}] * 32 + [{"n": 250, "depth": 5}] * 16)
 
 
 def run_shard(spec, seed, res, only_bucket=None):
